@@ -1,6 +1,6 @@
 (* Props_C15.v — property C15: ONLY theorem statements, each closed by [exact] of a lemma
    from C15_Proofs, followed by Print Assumptions. *)
-From Verif Require Import Base C15_Model C15_Proofs C15_Scan C15_ScanProofs C15_Fill C15_FillProofs.
+From Verif Require Import Base C15_Model C15_Proofs C15_Scan C15_ScanProofs C15_Fill C15_FillProofs C15_Count.
 Open Scope Z_scope.
 
 (* later positive Limit/Offset values override earlier ones; negative values cancel them;
@@ -198,3 +198,22 @@ Example c15_fill_example :
     = [("id", Some 6); ("v", Some 6); ("n", None); ("key_copy", Some 0); ("order", Some 0)]%string
   /\ fill_map [] dr = [("id", Some 6); ("v", Some 6); ("n", None); ("zz", Some 1)]%string.
 Proof. split; reflexivity. Qed.
+
+(* ---- Count on a chain that carries a Select (C15_Count.count_sel, evaluated on every case without
+   limit / offset).  Count equals the number of rows Find returns whenever it does not count ONE
+   selected column that is NULL in a matching row ... ---- *)
+Theorem c15_count_under_select_partial : forall selects ms,
+  (forall c r, counts_column selects = Some c -> In r ms -> col_value c r <> None) ->
+  count_sel selects ms = Z.of_nat (length ms).
+Proof. exact count_sel_agrees. Qed.
+Print Assumptions c15_count_under_select_partial.
+(* ... in particular for several selected columns, a column list in one string, no Select *)
+Theorem c15_count_under_select_star : forall selects ms,
+  counts_column selects = None -> count_sel selects ms = Z.of_nat (length ms).
+Proof. exact count_sel_star. Qed.
+Print Assumptions c15_count_under_select_star.
+(* the full statement is false for the faithful model: Select("n").Count counts COUNT(n)
+   (known finding count-of-single-nullable-selected-column) *)
+Theorem c15_count_under_select_refuted : exists selects ms, count_sel selects ms <> Z.of_nat (length ms).
+Proof. exact count_sel_refuted. Qed.
+Print Assumptions c15_count_under_select_refuted.
